@@ -824,7 +824,10 @@ def main(tier: str) -> int:
     lean = lean_check("Props.C06", ["drv_earley"])
     for rf in info["refusals"]:
         lean.broken.append({"module": "Generated.Earley", "reason": "translator refused: " + rf})
-    policy = info["policy"] or "impl"
+    # a refused translation: the obligations are broken; the failing-input search then runs the REAL parser against
+    # the model of the repaired parser (Variant.now, which provably terminates: C06_parse_terminates) — a request the
+    # model finishes and the real parser does not is the concrete violation
+    policy = info["policy"] or "acyclic"
     variant = info.get("variant") or {"policy": policy, "cap": None, "predDone": True, "aligned": True,
                                       "wideGuard": True, "emptyRegex": True}
     run.coverage["generated_policy"] = info
@@ -838,7 +841,16 @@ def main(tier: str) -> int:
     corr_failures.extend(bad_tables)
     run.count("corr:compiled_tables_compared", n_tables)
     run.count("corr:compiled_tables_equal", n_tables - len(bad_tables))
-    core, pol, pre = model_runs(reals, tasks, policy, variant, tier)
+    try:
+        core, pol, pre = model_runs(reals, tasks, policy, variant, tier)
+    except MachineryError as e:
+        if not (lean.broken or run.violations):
+            raise
+        # the source no longer is what the model describes and the model side could not keep up with what the real
+        # parser did: judge the real runs alone (a verdict already exists; never a machinery error on top of it)
+        run.count("model_runs_abandoned_after_broken_obligation")
+        run.coverage["model_runs_abandoned"] = str(e)[:200]
+        core, pol, pre = [None] * len(tasks), [None] * len(tasks), [None] * len(tasks)
     judge(run, tasks, reals, core, pol, policy, corr_failures, info, undecided, unbounded_outside, pre)
     run.coverage["t_parse_phase_s"] = round(run.budget_left(0) * -1, 1)
     comp_eps = {}
